@@ -15,7 +15,7 @@
        step report has then certainly been delivered).
    Run with -simulate. *)
 EXTENDS DKGSync, Json, Sequences, Randomization
-CONSTANTS GenLen, GenCfgs, Crashes, FaultAfter
+CONSTANTS GenLen, GenCfgs, Crashes, FaultAfter, StopFrom
 VARIABLES hist, pend, fin
 gvars == <<vars, hist, pend, fin>>
 
@@ -43,7 +43,7 @@ Internal ==
        THEN LET i == CHOOSE x \in Honest : ENABLED FRej(x) IN FRej(i) /\ Quiet
      ELSE IF \E j, i \in Honest : i # j /\ ClientUp(j, i) /\ ServerUp(i) /\ Changes(j, i)
        THEN LET p == CHOOSE q \in Honest \X Honest : q[1] # q[2] /\ ClientUp(q[1], q[2]) /\ ServerUp(q[2]) /\ Changes(q[1], q[2])
-            IN Report(p[1], p[2]) /\ Quiet
+            IN Ping(p[1], p[2]) /\ Quiet
      ELSE IF \E i \in Honest : ENABLED Connected(i)
        THEN LET i == CHOOSE x \in Honest : ENABLED Connected(x) IN Connected(i) /\ Quiet
      ELSE IF \E i \in Honest : ENABLED Pass(i)
@@ -61,9 +61,9 @@ Call(i, what) == hist' = Append(hist, [ev |-> what, i |-> i]) /\ pend' = [pend E
 HonestMove ==
      \/ \E i \in Honest : Start(i) /\ Call(i, "Start")
      \/ \E i \in Honest : Next(i) /\ Call(i, "Next")
-     \/ \E i \in Honest : step[i] >= 2 /\ Stop(i) /\ Call(i, "Stop")
+     \/ \E i \in Honest : step[i] >= StopFrom /\ Stop(i) /\ Call(i, "Stop")
      \/ \E i \in Honest :
-          /\ Crashes /\ Len(hist) > 12 /\ NoneInStart /\ \A j \in Honest \ {i} : Dead(j) \/ phase[j] = "idle" \/ passed[j] >= step[i]
+          /\ Crashes /\ Len(hist) > 12 /\ NoneInStart /\ \A q \in Honest : phase[q] \notin {"stopwait", "closing"} /\ \A j \in Honest \ {i} : Dead(j) \/ phase[j] = "idle" \/ passed[j] >= step[i]
           /\ Crash(i) /\ hist' = Append(hist, [ev |-> "Crash", i |-> i]) /\ pend' = [pend EXCEPT ![i] = FALSE]
 FaultyMove ==
      \/ \E s \in 1..3, i \in Honest :
@@ -79,6 +79,8 @@ FaultyMove ==
           \E a \in (IF early THEN {"ok"} ELSE {"ok", "sig", "ver"}), sd \in (IF early THEN {FALSE} ELSE BOOLEAN) :
           \E st \in (IF early \/ a # "ok" THEN Pick(1, good) ELSE Pick(2, {v \in 0..(MaxStep + 4) : v >= cur - 1 /\ v <= cur + 3})) :
             /\ sd => NoneInStart
+            \* a member inside shutdownFunc passes its last barrier unseen: nothing that could race with that
+            /\ phase[x.to] \in {"stopwait", "closing"} => a = "ok" /\ st \in good
             /\ early => (st # cur \/ cfg.f \notin conn[x.to])
             /\ FMsg(x.s, Msg(a, st, sd)) /\ UNCHANGED pend
             /\ hist' = Append(hist, [ev |-> "FMsg", s |-> x.s, auth |-> a, step |-> st, shutdown |-> sd])
